@@ -35,6 +35,9 @@ var LitShapes = []string{
 	"rawmessage", "bool", "int", "uint", "float", "number", "string",
 	"empty_slice", "empty_map", "empty_struct", "slice_of_nil_any", "slice_of_nil_ptr", "map_of_nil_any", "map_of_nil_ptr", "struct_of_nil_fields",
 	"slice_of_string", "map_of_string",
+	// objects whose JSON form is not what their own decoding side declares (foreign.go): a MarshalJSON that adds a
+	// discriminator key (value receiver / pointer receiver, more keys), a struct with anonymous embedded struct fields
+	"discriminated", "discriminated_ptr", "embedded_fields",
 }
 
 // LitIntoKinds are the extraction targets of a chain with such an object, next to the plain extraction into a zero
@@ -150,6 +153,21 @@ func (l *Lit) build() any {
 		return []string{l.Text}
 	case "map_of_string":
 		return map[string]string{l.Text: l.Text}
+	case "discriminated":
+		return quota{User: l.Text, Limit: len(l.Text)}
+	case "discriminated_ptr":
+		ev := &event{Name: l.Text}
+		if l.Text != "" {
+			ev.Tags = []string{l.Text, "null"}
+		}
+		return ev
+	case "embedded_fields":
+		env := envelope{headPart: headPart{S: l.Text}, Body: l.Text}
+		if l.Text != "" {
+			env.L = []string{l.Text}
+			env.TailPart = &TailPart{N: int64(len(l.Text)), M: map[string]int{l.Text: 1}}
+		}
+		return env
 	}
 	panic("bad literal object shape " + l.Shape)
 }
@@ -289,6 +307,24 @@ func (l *Lit) target(filled bool) any {
 			v = map[string]string{"stale": "old", "null": "old"}
 		}
 		return &v
+	case "discriminated":
+		v := quota{}
+		if filled {
+			v = quota{User: "old", Limit: 42}
+		}
+		return &v
+	case "discriminated_ptr":
+		v := event{}
+		if filled {
+			v = event{Name: "old", Tags: []string{"stale", "staler", "stalest"}}
+		}
+		return &v
+	case "embedded_fields":
+		v := envelope{}
+		if filled {
+			v = envelope{headPart{"old", []string{"stale", "staler"}}, &TailPart{N: 7, M: map[string]int{"stale": 1}}, "old body"}
+		}
+		return &v
 	}
 	panic("bad literal object shape " + l.Shape)
 }
@@ -308,6 +344,9 @@ func validateLit(l *Lit) {
 func litClasses(l *Lit, text []byte) []string {
 	s := string(text)
 	c := []string{"object_json_is_not_an_obj_struct", "literal_shape:" + l.Shape}
+	if strings.HasPrefix(l.Shape, "discriminated") {
+		c = append(c, "object_json_has_keys_its_own_type_does_not_decode")
+	}
 	switch {
 	case s == "null":
 		c = append(c, "object_json_is_null")
